@@ -349,6 +349,265 @@ PROPS["C17"] = {
                     "no other value bound in the scopes implements flamego.Render"],
 }
 
+# ---------------------------------------------------------------------------- C03 / C15
+# Both properties are theorems over Model/Chain (the run()/Next()/Recovery machine) and share the
+# `chain` session kind; each has its own generator (suite) and its own non-triviality rule.
+import os as _os, subprocess as _sp
+
+_FMODEL = _os.path.join(_os.path.dirname(_os.path.dirname(_os.path.abspath(__file__))),
+                        "lean", ".lake", "build", "bin", "fmodel")
+
+
+def _chain_handlers(sess):
+    return [l.split() for l in sess if l.startswith("H ")]
+
+
+def _chain_acts(sess):
+    out = []
+    for h in _chain_handlers(sess):
+        if len(h) >= 3 and h[1] == "p" and h[2] != "-":
+            out += h[2].split(",")
+    return out
+
+
+def _chain_events(real):
+    ev = []
+    for l in real:
+        if " | " in l:
+            ev.append(l.split(" | ")[0].split(","))
+    return ev
+
+
+def _c03_nontrivial(sess, real):
+    # some handler called Next() and at least two handlers started in one request
+    # (so nesting/cursor bookkeeping was exercised), or the chain was stopped early by a write/cancel
+    acts = _chain_acts(sess)
+    for ev in _chain_events(real):
+        starts = [e for e in ev if e.startswith(">")]
+        if "n" in acts and len(starts) >= 2:
+            return True
+        if len(starts) >= 1 and len(starts) < len(_chain_handlers(sess)) and any(a[0] in "wbc" for a in acts):
+            return True
+    return False
+
+
+def _c15_nontrivial(sess, real):
+    # Recovery is installed and a panic actually happened during a request
+    # (a handler was unwound, Recovery's body reached the client, or a panic escaped)
+    if not any(h[1:2] == ["r"] for h in _chain_handlers(sess)):
+        return False
+    for l in real:
+        if " | " not in l:
+            continue
+        ev, under, esc = l.split(" | ")
+        if "!" in ev or ",P" in "," + under.split(" ")[0] or ",D" in "," + under.split(" ")[0] or esc != "esc=-":
+            return True
+    return False
+
+
+def _c15_known_match(k, sess, real_out, model_out):
+    """F15 only: the session registers a panicking Before hook, the only diverging lines are REQ
+    observations, and on every line the real code did exactly what the model does when the writer's
+    Once is spent by the panicking hook (Cfg.onceBug, i.e. response_writer.go as it is)."""
+    if k.get("id") != "F15":
+        return False
+    if "h" not in _chain_acts(sess):
+        return False
+    for l, r, m in zip(sess, real_out, model_out):
+        if r != m and l.strip() != "REQ":
+            return False
+    try:
+        hdr = sess[0].split()
+        bug_sess = [" ".join(hdr[:7] + ["bug"])] + list(sess[1:])
+        p = _sp.run([_FMODEL, "run"], input="\n".join(bug_sess) + "\n", stdout=_sp.PIPE, text=True, timeout=60)
+        as_is = p.stdout.split("\n")
+        if as_is and as_is[-1] == "":
+            as_is.pop()
+    except Exception:
+        return False
+    return p.returncode == 0 and as_is == list(real_out)
+
+
+_C15_RULE = ("sessions = one real Flame with flamego.Recovery() at a chosen position (exhaustive: every position of every stack of "
+        "depth<=3/4 over a 12-handler alphabet; then random stacks up to depth 7/10, ~3% with a panicking Before hook), "
+        "2-3 requests per instance; distinct by op text; non-trivial = a panic actually happened in a request (a handler was "
+        "unwound, Recovery's body reached the client, or a panic escaped)")
+
+# F17: the witness of `no_escape_full_false` (Props/C15) as a session; it is part of every generated C15 stream.
+_F17_OPS = ["H p n,n -", "H r", "H p w200 -", "H p pS -"]
+
+
+def _c15_stats(lines, sessions, R, M):
+    st = generic_stats(_c15_nontrivial, _C15_RULE)(lines, sessions, R, M)
+    seen = 0
+    for (a, b) in sessions:
+        hs = [l for l in lines[a:b] if l.startswith("H ")]
+        if hs == _F17_OPS and lines[a].split()[3:7] == ["2", "0", "2", "0"]:
+            # re-observed: the REAL code lets the panic of the 4th handler escape ServeHTTP (and the model agrees)
+            for i in range(a, b):
+                if lines[i].strip() == "REQ" and R[i] == M[i] and R[i].endswith("esc=str") and ">3,!3,!0" in R[i]:
+                    seen += 1
+    st["known_findings_observed"] = {"F17": seen}
+    return st
+
+
+_CHAIN_TRUST = COMMON_TRUST + [
+    "modelled, not verified: handlers are finite programs over write/body/next/cancel/map/panic/hook-panic with an "
+    "abstract return effect (the return-value table is C14); dependency injection is reduced to 'resolvable or not' (C04)",
+    "modelled, not verified: Recovery's logging and stack rendering; the development page is a token, its length a parameter",
+    "the harness observes Recovery only through its effects (the real flamego.Recovery() cannot be instrumented)",
+]
+
+PROPS["C03"] = {
+    "technique": "Lean 4 theorems over an executable interpreter of run()/Next() (all chains, all handler programs) "
+                 "+ differential correspondence with a real Flame instance",
+    "level_text": "Every clause of C03 is a Lean theorem over Model/Chain for all chains (middleware, group, route handlers, "
+                  "optional/nil action) and all handler programs; the model is tied to context.go/flame.go/router.go by an "
+                  "exhaustive small-scope and random differential check against a real *flamego.Flame on every run.",
+    "level_note": "Trusted: Lean kernel; hand-written model tied by differential testing; handlers are finite programs; GET only.",
+    "props_modules": ["Flamego.Props.C03"],
+    "suite": "C03",
+    "stats": generic_stats(_c03_nontrivial,
+        "sessions = one real Flame per handler stack (exhaustive over stacks of depth<=3 (quick) / 4 (thorough) from a "
+        "13-handler alphabet, spread over all middleware/group/route/action layouts, then random stacks up to depth 7/10); "
+        "distinct by op text; non-trivial = a handler called Next() and >=2 handlers started in one request, or the chain "
+        "was cut short after a write/cancel"),
+    "known_match": no_known,
+    "trusted_base": _CHAIN_TRUST,
+    "assumptions": ["one goroutine per request; the request context is cancelled only by the handlers' own cancel action",
+                    "status codes 100..999"],
+}
+
+PROPS["C15"] = {
+    "technique": "Lean 4 theorems over the same interpreter with Recovery frames and panic unwinding "
+                 "+ differential correspondence with a real Flame instance using flamego.Recovery()",
+    "level_text": "Containment, status, body detail, completion of outer middleware and instance health are Lean theorems over "
+                  "Model/Chain for every chain with Recovery at any position and every program; tied to recovery.go/context.go/"
+                  "response_writer.go by differential checking (five panic value kinds, injection failures, dev/prod, "
+                  "repeated requests on one instance).",
+    "level_note": "Trusted: Lean kernel; hand-written model tied by differential testing; open finding F15 (panicking Before hook) "
+                  "matched by signature; position-based containment is proved under a stated guard (see Props/C15).",
+    "props_modules": ["Flamego.Props.C15"],
+    "suite": "C15",
+    "stats": _c15_stats,
+    "known_match": _c15_known_match,
+    "trusted_base": _CHAIN_TRUST + ["flamego.SetEnv is switched per session and restored (global state)"],
+    "assumptions": ["one goroutine per request", "panic values are non-nil", "status codes 100..999"],
+}
+
+
+# ---------------------------------------------------------------------------------- C05
+def _c05_extra(ctx):
+    """Race run (the SEARCH, not the proof): build the harness with -race, serve a request mix serially, then
+    from N goroutines, compare every response with its serial outcome. Returns replay paths for violations."""
+    import json, os, shutil, subprocess, sys
+    root, repo, workdir = ctx["ROOT"], ctx["REPO"], ctx["workdir"]
+    build = os.path.join(root, "build")
+    src = os.path.join(root, "harness") if repo == "/repo" else os.path.join(build, "harness_src")
+    binp = os.path.join(build, "harness-race")
+    env = dict(ctx["GOENV"], CGO_ENABLED="1")   # -race needs cgo; only this build overrides the check's GOENV
+    rc, out = ctx["sh"](["go", "build", "-race", "-tags", "verif", "-o", binp, "."], cwd=src, env=env, timeout=900)
+    cov = ctx["ev"]["coverage"]
+    if rc != 0:
+        print("BROKEN (machinery, not a verdict): go build -race failed:\n" + out[-3000:])
+        sys.exit(2)
+    outdir = os.path.join(workdir, "conc")
+    os.makedirs(outdir, exist_ok=True)
+    runenv = dict(os.environ, GORACE="halt_on_error=1 exitcode=66 log_path=%s" % os.path.join(outdir, "race"))
+    cmd = [binp, "conc", str(ctx["seed"]), ctx["tier"], outdir]
+    p = subprocess.run(cmd, env=runenv, stdout=subprocess.PIPE, stderr=subprocess.PIPE, text=True, timeout=1500)
+    summary = {}
+    for line in p.stdout.splitlines():
+        if line.startswith("{"):
+            try:
+                summary = json.loads(line)
+            except ValueError:
+                pass
+    cov["concurrent_run"] = summary or {"result": "no-summary", "rc": p.returncode}
+    cov["concurrent_run_cmd"] = "go build -race -tags verif -o build/harness-race ./harness && GORACE='halt_on_error=1 log_path=<dir>/race' build/harness-race conc %d %s <dir>" % (ctx["seed"], ctx["tier"])
+    if summary:
+        # the counts that matter for C05 are those of the concurrent run, not of the (trivial) line protocol
+        cov["evaluations"] = summary.get("served_concurrently", 0)
+        cov["distinct_nontrivial"] = summary.get("distinct_requests", 0)
+        cov["rule"] = ("evaluations = responses served from %s goroutines and compared with the serial outcome of the same "
+                       "request; distinct_nontrivial = distinct requests in the mix (every one reaches routing; kinds in "
+                       "concurrent_run.request_kinds)" % summary.get("goroutines"))
+    reports = sorted(fn for fn in os.listdir(outdir) if fn.startswith("race"))
+    # the footprint entries that break footprint_disciplined (if any), for the evidence and the replay
+    unguarded = []
+    try:
+        import re
+        gen = open(os.path.join(root, "lean", "Flamego", "Gen", "ConcFacts.lean")).read()
+        for m in re.finditer(r"\{ target := (\"[^\n]*), kind := (\"[^\"]*\"), fn := (\"[^\n]*\"),\n\s*objects := (\"[^\n]*\"),\n\s*once := \"[^\"]*\", insideOnce := false, atomic := false, requestLocal := false \}", gen):
+            unguarded.append({"target": json.loads(m.group(1)), "kind": json.loads(m.group(2)), "fn": json.loads(m.group(3)), "objects": json.loads(m.group(4))})
+    except Exception as e:
+        unguarded = ["could not parse Gen/ConcFacts.lean: %s" % e]
+    cov["unguarded_shared_writes"] = unguarded
+    how = ("cd %s && CGO_ENABLED=1 go build -race -tags verif -o /tmp/harness-race . && "
+           "GORACE='halt_on_error=1 log_path=/tmp/race' /tmp/harness-race conc %d %s /tmp/conc-out   "
+           "(a goroutine schedule cannot be replayed deterministically: the replay is the program, the seed and the report)"
+           % (src, ctx["seed"], ctx["tier"]))
+    if p.returncode == 0 and not reports:
+        return []
+    if reports or p.returncode == 66:
+        text = "".join(open(os.path.join(outdir, fn)).read() for fn in reports)[:20000]
+        return [ctx["write_replay"](ctx["pid"], "race", {
+            "what": "the Go race detector reported a data race while the framework served requests concurrently",
+            "race_report": text.split("\n"), "unguarded_shared_writes_in_footprint": unguarded, "summary": summary, "seed": ctx["seed"], "tier": ctx["tier"],
+            "how_to_replay": how, "ops": ["NEW noop"]})]
+    if p.returncode == 1:
+        div = {}
+        try:
+            div = json.load(open(os.path.join(outdir, "divergence.json")))
+        except Exception:
+            pass
+        return [ctx["write_replay"](ctx["pid"], "counterexample", {
+            "what": "a response served concurrently differs from the one the same request gets when served alone",
+            "divergence": div, "unguarded_shared_writes_in_footprint": unguarded, "summary": summary, "seed": ctx["seed"], "tier": ctx["tier"],
+            "how_to_replay": how, "ops": ["NEW noop"]})]
+    print("BROKEN (machinery, not a verdict): race binary exited %d: %s %s" % (p.returncode, p.stdout[-1500:], p.stderr[-1500:]))
+    sys.exit(2)
+
+
+PROPS["C05"] = {
+    "technique": "Lean 4 theorems: race freedom from an access discipline (all executions), frame/isolation theorem over all "
+                 "interleavings, and `decide`-checked theorems over the write footprint that a Go SSA flow analysis regenerates "
+                 "from the source on every run; plus a -race differential run (serial vs N goroutines) as the search",
+    "level_text": "PARTIAL proof. (i) drf_of_discipline: in the model of Model/Conc.lean (program order + sync.Once edge + atomic "
+                  "edge) every execution that respects the discipline orders all conflicting accesses by happens-before; "
+                  "(ii) footprint_disciplined & co.: every write that serving can perform, as extracted from the current source, "
+                  "is request-local, inside the sync.Once closure of the written object, or a sync/atomic op; once-guarded fields "
+                  "are read only after Do; library calls on shared objects are on a documented list; (iii) interleaving_serial: "
+                  "for every interleaving each request's record equals its solo record and the once caches hold only what they compute.",
+    "level_note": "PARTIAL: Lean cannot exhibit the Go memory model or the scheduler — the theorems are about a model of executions and "
+                  "about an extracted write footprint; the footprint extraction (translator/concfacts*.go: SSA flow analysis in a "
+                  "set-up and a serve phase, reflection modelled as transparent, library code opaque) is trusted, as is its "
+                  "classification of net/http's per-request (w, r) as request-local; application handlers are outside the claim; "
+                  "`serve` is abstract in the isolation theorem; the -race run is supporting evidence and the hunting ground for "
+                  "replays, not a proof. A footprint change with no observed race ends in no-failing-input-found.",
+    "props_modules": ["Flamego.Props.C05"],
+    "suite": "C05",
+    "stats": generic_stats(lambda sess, real: False,
+        "the line protocol carries one trivial session for C05; see concurrent_run for what was explored"),
+    "known_match": no_known,
+    "trusted_base": COMMON_TRUST + [
+        "translator/concfacts*.go: the phase-sensitive flow analysis that extracts Gen/ConcFacts.lean (allocation-site x phase heap "
+        "abstraction, on-the-fly call graph, reflect.ValueOf/Interface/Call transparent, sync.Once.Do and sync/atomic recognised by name); "
+        "its soundness is argued in its header comment, not proved",
+        "the Go memory model: a data-race-free execution is sequentially consistent (DRF-SC); sync.Once and sync/atomic order "
+        "events as modelled by HB.once / HB.atomic",
+        "net/http's Handler contract: every ServeHTTP call gets its own ResponseWriter and *Request (classified request-local)",
+        "the libraries listed in Props/C05.lean `documentedConcurrencySafe` are safe for concurrent use as documented "
+        "(regexp.Regexp matching, charmbracelet/log.Logger, sync, sync/atomic, reflect inspection, http.Dir)",
+        "the Go race detector and scheduler (supporting evidence only)"],
+    "assumptions": ["set-up (routes, middleware, mapped services) has finished before the first ServeHTTP and happens-before it",
+                    "application handlers and application-supplied services synchronise their own state",
+                    "handlers do not call the set-up API (Use/Get/Map on the Flame) while requests are served"],
+    "extra_check": _c05_extra,
+    "leanchecker": True,
+}
+
+
 # ------------------------------------------------------------------- router suites
 import router_props as rp
 
